@@ -37,3 +37,9 @@ pub fn format_empty(_args: core::fmt::Arguments<'_>) -> String {
 
 pub fn eprint_nop(_args: core::fmt::Arguments<'_>) {}
 
+
+/// `RandomState::new()` with fixed keys (HashSet/HashMap iteration order is never observed by the
+/// properties checked; SipHash itself still runs).
+pub fn random_state_fixed() -> std::hash::RandomState {
+    unsafe { core::mem::transmute::<(u64, u64), std::hash::RandomState>((1u64, 2u64)) }
+}
